@@ -105,7 +105,9 @@ def run(ctx, rep):
         if I.tops: continue
         for i, s in enumerate(flatten_conds(segs)):
             pass
-        sites += framing(rep, f, st, segs)
+        sym.CTX = I.st.ranges          # what the serialiser's own path established about ranges (Vec lengths, refusals)
+        try: sites += framing(rep, f, st, segs)
+        finally: sym.CTX = {}
     # Scope::raw and the field-list entries are covered through their owners (Scope::raw in C15)
     rep.floor('pkg-length call sites (framed objects)', sites, 15)
 
